@@ -253,6 +253,11 @@ def _worker_job(key, job, roots, max_paths, deadline, seed, validate_cap, split_
         m = eng.get_model()
         if m is None:
             return
+        if do_validate and eng.noise_sites and any(z3.is_true(m.eval(q, model_completion=True)) for q in eng.noise_sites):
+            # the model sits exactly on a float-rounding boundary where the modelled comparison is
+            # deliberately nondeterministic: the native run may legitimately take the other side
+            do_validate = False
+            res["native_skipped"] += 1
         vals = model_values(m, x.names)
         if want_sample:
             res["samples"].append(dict(trail="".join("T" if d else "F" for d in eng.trail[: eng.pos]), inputs=vals))
